@@ -86,11 +86,13 @@ CHECKS = {
     "C01": dict(level="exploration", engine="jsonenum",
                 jobs=lambda t: J("jsonenum", "prod-hsw", ["--prop", "C01"]) + J("jsonenum", "asan-hsw", ["--prop", "C01"]) +
                 J("jsonenum", "prod-hsw-fastmath", ["--prop", "C01", "--skip", "L0_,LA_,LA2_,LB2_"], label="prod-hsw-fastmath/structured-families") +
+                J("numenum", "prod-hsw", ["--only", "N9_exponent_wraparound"], label="prod-hsw/exponent-wraparound") +
                 (J("jsonenum", "prod-wsm", ["--prop", "C01"]) if t == "thorough" else []),
                 rule="Document::Parse(data,len) from an exact-size buffer vs the reference RFC 8259 recogniser: accept <=> reference accepts; success => code 0, offset==len; failure => null document, parse code, offset<=len, fault class where unambiguous. Non-trivial: the reference consumed >= 2 tokens or accepted."),
     "C02": dict(level="exploration", engine="jsonenum",
-                jobs=lambda t: J("deepnest", "prod-hsw", [], label="prod-hsw/very-deep") + J("jsonenum", "asan-hsw", ["--prop", "C02"], fills=FILLS_Q if t == "quick" else FILLS_T),
-                budget=dict(quick=240, thorough=3000),
+                jobs=lambda t: J("deepnest", "prod-hsw", [], label="prod-hsw/very-deep") + J("jsonenum", "asan-hsw", ["--prop", "C02"], fills=FILLS_Q if t == "quick" else FILLS_T) +
+                J("sched", "sched-prod", ["--only", "SP_documents_over_shared_pool"], label="sched-prod/documents-over-one-shared-pool"),
+                budget=dict(quick=300, thorough=3000),
                 rule="Parse under ASan for pool / freeing / ledger-tracking allocators, malloc fill bytes making unconstructed nodes decode as object/array/owned string; survive, heap balance restored after the document dies, ledger exact, reuse and reparse behave like fresh. Non-trivial: text of >= 2 bytes. Second job: texts nested 2*10^4 and 10^6 deep on an 8 MiB stack (production build), results known by construction, stack exhaustion attributed to the call in progress."),
     "C03": dict(level="exploration", engine="jsonenum",
                 jobs=lambda t: J("jsonenum", "prod-hsw", ["--prop", "C03"]) + J("jsonenum", "asan-wsm" if t == "thorough" else "prod-wsm", ["--prop", "C03"]),
@@ -115,6 +117,7 @@ CHECKS = {
                 rule="string literals built from atom sequences / raw bytes / \\u escapes at every offset relative to the 16/32-byte blocks, as root, array value, object key and on-demand key, against the scalar reference decoder: accepted <=> reference accepts, decoded bytes equal; plus \\uH\\uL pairs directly through parseStringInplace (thorough: all 2^32)."),
     "C08": dict(level="exploration", engine="kernels",
                 jobs=lambda t: J("kernels", "prod-hsw", ["--prop", "C08"]) + J("kernels", "asan-hsw", ["--prop", "C08"]) + J("kernels", "prod-hsw-clang", ["--prop", "C08"]) +
+                J("serenum", "asan-hsw", ["--only", "TK_construction_routes"], label="asan-hsw/serialize-construction-routes") +
                 (J("kernels", "prod-wsm", ["--prop", "C08"]) + J("kernels", "prod-wsm-clang", ["--prop", "C08"]) if t == "thorough" else []),
                 budget=dict(quick=300, thorough=3000),
                 rule="U64toa/I64toa output == snprintf(%llu/%lld), returned length exact, nothing written before the buffer or beyond out+32: every value below 10^8 (whole 1-8 digit kernel), every low 8-digit group under boundary high parts (whole vectorised splitter), all composed boundary values h*10^16+a*10^8+b, powers of 2 and 10 +-2, extremes; Serialize+Parse keeps the integer kind."),
@@ -125,10 +128,12 @@ CHECKS = {
                 J("serenum", "prod-hsw", ["--only", "T9_fenced_blocks"], label="prod-hsw/serialize-fenced-strings") + J("serenum", "prod-wsm", ["--only", "T9_fenced_blocks"], label="prod-wsm/serialize-fenced-strings") +
                 J("serenum", "prod-dyn", ["--only", "T9_fenced_blocks"], label="prod-dyn/serialize-fenced-strings") +
                 J("serenum", "asan-hsw", ["--only", "T10_closes_after_strings_x_capacity"], label="asan-hsw/serialize-capacity-sweep") +
+                J("serenum", "asan-dyn", ["--only", "T10_closes_after_strings_x_capacity"], label="asan-dyn/serialize-capacity-sweep") +
+                J("serenum", "asan-hsw", ["--only", "TL_long_head_x_escape_run"], label="asan-hsw/serialize-long-head-x-escape-run") +
                 J("tsanrun", "tsan", ["--only", "TQ_quote_next_to_foreign_writes"], env={"TSAN_OPTIONS": "halt_on_error=1:exitcode=66:report_signal_unsafe=0"}, label="tsan/quote-next-to-foreign-writes") +
                 J("tsanrun", "tsan-gcc", ["--only", "TQ_quote_next_to_foreign_writes"], env={"TSAN_OPTIONS": "halt_on_error=1:exitcode=66:report_signal_unsafe=0"}, label="tsan-gcc/quote-next-to-foreign-writes") +
                 (J("kernels", "asan-wsm", ["--prop", "C09"]) + J("kernels", "prod-dyn", ["--prop", "C09"], label="prod-dyn/dispatched") if t == "thorough" else []),
-                budget=dict(quick=300, thorough=3000),
+                budget=dict(quick=400, thorough=3000),
                 rule="internal::Quote on every length 0..100 with every byte value at every position and two special bytes at all position pairs; output validated byte by byte (verbatim copies, correct escapes, length <= 6n+2); production build: source ending 0..64 bytes before an unmapped page with three different in-page tails (output must not depend on them), destination exactly 6n+35 bytes before an unmapped page; ASan: exact-size heap source and destination. Long strings (one special byte at every position up to 4097 bytes). Three further jobs serialise documents whose allocator places every block (copied strings own exactly len+1 bytes) directly in front of an inaccessible page. Two ThreadSanitizer jobs (clang and gcc builds): one thread serialises a string view of n bytes (n in 0..99, four alignments) of a shared arena while another thread stores to the bytes right behind it - any read outside the view is a reported race."),
     "C14": dict(level="exploration", engine="kernels",
                 jobs=lambda t: J("kernels", "prod-hsw", ["--prop", "C14"]) + J("kernels", "asan-hsw", ["--prop", "C14"]) + J("kernels", "prod-wsm", ["--prop", "C14"]) + (J("kernels", "prod-dyn", ["--prop", "C14"]) if t == "thorough" else []),
@@ -158,12 +163,14 @@ CHECKS = {
                 budget=dict(quick=150, thorough=3000),
                 rule="explicit-state BFS over histories of two documents using a ledger-tracking allocator that really frees (Parse valid/invalid/deep, ParseOnDemand, ParseSchema, document move/swap, cross-document CopyFrom, node mutations, destroy/recreate at any point) under ASan: every block obtained from the allocator is returned exactly once (no double or foreign free, no use after free), nothing is left allocated when the last owner dies (ledger empty, heap at baseline), and each document's Dump() equals its own model after every step so that a deep copy is independent of its source. The mutation-API explorer with the same tracking allocator (domexplore, one start state) is run as a second job."),
     "C18": dict(level="exploration", engine="eqenum",
-                jobs=lambda t: J("eqenum", "prod-hsw", []) + J("eqenum", "asan-hsw", []),
-                budget=dict(quick=150, thorough=3000),
+                jobs=lambda t: J("eqenum", "prod-hsw", []) + J("eqenum", "asan-hsw", []) + J("domsweep", "asan-hsw", ["--only", "W_duplicate_histories"], label="asan-hsw/duplicate-key-histories"),
+                budget=dict(quick=200, thorough=3000),
                 rule="all ordered pairs of a value set x all 25 pairs of realisations through different histories and allocators: operator== agrees with reference JSON value equality (objects order-insensitive, number kinds and bit patterns distinguished), != is its negation, symmetric, reflexive; transitivity on all triples of a subset. Evaluations count (pair, realisation pair) comparisons."),
     "C06": dict(level="exploration", engine="serenum",
-                jobs=lambda t: J("serenum", "prod-hsw", []) + J("serenum", "asan-hsw", []) + J("domexplore", "prod-hsw", ["--only", "M_pool_nestedmap"], label="prod-hsw/domexplore-states") + (J("serenum", "prod-wsm", []) if t == "thorough" else []),
-                budget=dict(quick=150, thorough=3000),
+                jobs=lambda t: J("serenum", "prod-hsw", []) + J("serenum", "asan-hsw", []) + J("domexplore", "prod-hsw", ["--only", "M_pool_nestedmap"], label="prod-hsw/domexplore-states") +
+                J("serenum", "asan-dyn", ["--only", "T6_fill_x_expanding_string"], label="asan-dyn/fill-x-expanding-string") + J("serenum", "asan-dyn", ["--only", "T10_closes_after_strings_x_capacity"], label="asan-dyn/capacity-sweep") +
+                (J("serenum", "prod-wsm", []) if t == "thorough" else []),
+                budget=dict(quick=240, thorough=3000),
                 rule="documents parsed from every accepted text of the families, API-built strings of every byte value/length/position, boundary integers and doubles, and non-finite doubles at every position, each serialised into 25 write-buffer start states (fresh, reused, reused after larger/smaller output, WriteBuffer(c) for 12 small capacities, move-assigned / moved-from / move-constructed / swapped buffers of different capacities; exact-size reallocs under ASan): Serialize succeeds, all states give identical bytes, the output is accepted by the independent reference recogniser and denotes the same value with the same number kinds, Parse(output) is == the original, re-serialising gives identical bytes, ToString is NUL-terminated; non-finite -> kSerErrorInfinity and Dump()==''. Every state reached by the mutation-API BFS is round-tripped too (second job)."),
     "C17": dict(level="model_checking", engine="sched",
                 jobs=lambda t: J("sched", "sched-prod", []) + J("sched", "sched", ["--only", "SC_alloc_2threads_x2ops", "--bound", "1"], label="sched-asan/2threads-bound1") +
@@ -289,7 +296,11 @@ def replay_case(binpath, job, tier, family, idx, replay_from=None):
     cmd = [binpath, "--tier", tier] + job["args"] + ["--replay", family, str(idx)]
     if replay_from is not None:
         cmd += ["--replay-from", str(replay_from)]
-    p = subprocess.run(cmd, env=env, stdout=subprocess.PIPE, stderr=subprocess.STDOUT, text=True, timeout=600)
+    try:
+        p = subprocess.run(cmd, env=env, stdout=subprocess.PIPE, stderr=subprocess.STDOUT, text=True, timeout=float(os.environ.get("VERIF_REPLAY_TIMEOUT_S", "900")))
+    except subprocess.TimeoutExpired as e:
+        # a case that never returns is a reproduced failure of that case (hang), not a harness error
+        return 124, "REPLAY-TIMEOUT: the case did not finish within %s s (hang)\n%s" % (e.timeout, (e.stdout or b"").decode("utf-8", "replace")[-2000:] if isinstance(e.stdout, bytes) else (e.stdout or "")[-2000:])
     return p.returncode, p.stdout
 
 
@@ -397,6 +408,9 @@ def do_check(prop, tier):
     unconfirmed = []
     for job, v in violations:
         k = match_known(prop, v["class"], known)
+        if not k and (v["class"], job["label"]) in reported:
+            n_viol += 1  # same class in the same job already reported with a replay file
+            continue
         if v.get("no_replay"):
             code, out = 1, v["detail"]
         else:
